@@ -27,9 +27,11 @@ def run(name):
     if not first and caught and 'first_version_missed' not in meta:
         meta['first_version_missed'] = True
     meta['checks_that_catch_it'] = caught
+    counts = {m.group(1): [int(m.group(2)), int(m.group(3))] for m in
+              re.finditer(r'(C\d+) quick: .*?(\d+) disagreements, (\d+) oracle failures', out)}
     how = re.search(r'SEED patch: (.*)', out)
     meta['last_run'] = {'tests_with_change': tests.group(1) if tests else None, 'demo': dict(demo), 'checks_run': props,
-                        'patch': how.group(1) if how else None}
+                        'patch': how.group(1) if how else None, 'failing_cases': counts}
     json.dump(meta, open(os.path.join(d, 'meta.json'), 'w'), indent=1)
     return name, pid, caught, meta.get('first_version_missed', False), meta['needs_to_manifest']
 
